@@ -153,6 +153,7 @@ class Opts:
         self.mixed = True
         self.frozen = True
         self.nillable_empty_str = False   # "" in nillable str elements (DESIGN §5, triage item)
+        self.json_safe = False        # keep the dictionary image unambiguous (C04): see json_kinds()
         self.__dict__.update(kw)
 
 
@@ -186,6 +187,19 @@ class _Builder:
         return len(self.enums) - 1
 
     # -- classes ----------------------------------------------------------
+    def json_kinds(self, types):
+        out = set()
+        for t in types:
+            if "c" in t:
+                out.add("json:object")
+            elif "e" in t:
+                b = self.enums[t["e"]]["base"]
+                out |= {{"int": "json:int", "float": "json:float"}.get(b, "json:string*"), "json:string"} - ({"json:string"} if b in ("int", "float") else set())
+            else:
+                k = {"bool": "json:bool", "int": "json:int", "float": "json:float", "str": "json:string"}.get(t["p"], "json:string*")
+                out |= {k, "json:string"} if k == "json:string*" else {k}
+        return out
+
     def enum_has_ws(self, types):
         for t in types:
             if "e" in t and self.enums[t["e"]]["base"] == "str" and any(" " in v for v in self.enums[t["e"]]["values"]):
@@ -246,6 +260,13 @@ class _Builder:
             used |= {f.get("_local"), f.get("name"), f.get("wrapper")} | {ch["name"] for ch in f.get("choices", ())}
         used.discard(None)
         nfields = d(st.integers(0 if base is not None else 1, o.max_fields))
+        if base is not None and o.json_safe:
+            # without xsi:type the decoder picks the class by its keys: give every subclass a field it alone requires
+            f = self.new_field(c, cid, "Attribute", depth, used, next(self.names))
+            f.update(card="one", tokens=0, types=[{"p": "int"}])
+            f.pop("default", None)
+            f.pop("required", None)
+            c["fields"].append(f)
         seq_open = None
         # a mixed wildcard owns all child content of its element (also inherited content)
         mixed_wild = any(f.get("mixed") for f in inherited)
@@ -483,6 +504,22 @@ class _Builder:
                 key = tuple(sorted(str(t) for t in tr))
                 tset = {str(t) for t in tr}
                 py_types = {_pytype_key(t) for t in tr}
+                if o.json_safe:
+                    # choices are told apart by the JSON shape of the value only (docs: "will not work for
+                    # certain json roundtrips"): keep one choice per JSON kind, one model class at most
+                    kinds = self.json_kinds(tr)
+                    py_types |= kinds
+                    # a string-encoded value ("0", "0001", "true") is offered to every choice in turn, so
+                    # string-encoded non-str types cannot share a compound field with numeric/bool choices
+                    allk = kinds | {k for k in seen_types if k.startswith("json:")}
+                    if "json:string*" in allk and allk & {"json:int", "json:float", "json:bool"}:
+                        continue
+                    # the dictionary route has no access to a choice's `format`, and cannot match a raw JSON
+                    # number to an enumeration choice (recorded findings)
+                    if any("p" in t and PRIMS[t["p"]][2].get("format") for t in tr):
+                        continue
+                    if any("e" in t and self.enums[t["e"]]["base"] in ("int", "float") for t in tr):
+                        continue
                 if py_types & seen_types:
                     continue            # ambiguous choice types raise XmlContextError by design
                 seen_types |= py_types
